@@ -24,6 +24,8 @@ def viol(P: C.Part, what: str, sig, case, **extra):
     _viol(P, what, sig, case, **extra)
 
 PROP = "C12"
+# obligations of the properties this one is downstream of are obligations of this check too (vk.runner.collect_obligations)
+UPSTREAM = ["C05"]
 GEN_REGIONS = ["CoreKernels"]
 THEOREMS = {
     "SpecKitV.Lemmas.Sinusoid": ["leakage_bound", "onpeak_lower", "sinusoid_identity", "winT_le_sum"],
